@@ -323,3 +323,58 @@ Fixpoint walk_exprs (e : expr) {struct e} : list string :=
       | EIndex a i => (walk_exprs a ++ walk_exprs i)%list
       end
   end.
+
+(* ---- the guards under which the rewriting is behaviour-preserving (what the code lacks) ---- *)
+(* the node with already simplified children, i.e. what the post function sees *)
+Definition rebuild (hf : bool) (e : expr) : expr :=
+  match e with
+  | EIdent _ _ | ELit _ _ _ => e
+  | EParen x => EParen (simp hf x)
+  | EUnary o x => EUnary o (simp hf x)
+  | EBinary o l r => EBinary o (simp hf l) (simp hf r)
+  | ECall f args => ECall f (map (simp hf) args)
+  | EIndex a i => EIndex (simp hf a) (simp hf i)
+  | ESliceAll a => ESliceAll (simp hf a)
+  end.
+
+(* a literal bound whose base-10 reading is its Go value *)
+Definition decimal_lit (e : expr) : bool :=
+  match e with
+  | ELit LInt s _ =>
+      match parse_int_base10 s, go_int_lit s with
+      | Some a, Some b => Z.eqb a b
+      | _, _ => false
+      end
+  | _ => false
+  end.
+
+(* removeIncDec fires at this node only on non-float operands *)
+Definition incdec_guard (e' : expr) : bool :=
+  match remove_incdec e' with
+  | Some _ => match e' with EBinary _ x _ => negb (is_float_ty (typeof x)) | _ => true end
+  | None => true
+  end.
+
+(* foldRanges fires at this node only on decimal bounds *)
+Definition fold_guard (hf : bool) (e' : expr) : bool :=
+  match fold_ranges hf e' with
+  | Some _ =>
+      match e' with
+      | EBinary _ (EBinary _ _ ly) (EBinary _ _ ry) => decimal_lit ly && decimal_lit ry
+      | _ => true
+      end
+  | None => true
+  end.
+
+Fixpoint all_nodes (g : expr -> bool) (hf : bool) (e : expr) {struct e} : bool :=
+  g (rebuild hf e) &&
+  match e with
+  | EIdent _ _ | ELit _ _ _ => true
+  | EParen x | EUnary _ x | ESliceAll x => all_nodes g hf x
+  | EBinary _ l r => all_nodes g hf l && all_nodes g hf r
+  | ECall _ args => (fix go (l : list expr) : bool := match l with [] => true | x :: r => all_nodes g hf x && go r end) args
+  | EIndex a i => all_nodes g hf a && all_nodes g hf i
+  end.
+
+Definition no_float_incdec (e : expr) : bool := all_nodes incdec_guard (has_floats e) e.
+Definition decimal_bounds (e : expr) : bool := all_nodes (fold_guard (has_floats e)) (has_floats e) e.
